@@ -466,6 +466,14 @@ func (oa *ordAnalysis) checkStore(fn *ssa.Function, h *ssa.BasicBlock, st *ssa.S
 				}
 			}
 		}
+		// the same reduction written with the builtins: a = max(load a, l)
+		if c, ok := st.Val.(*ssa.Call); ok && (calleeName(c) == "builtin:max" || calleeName(c) == "builtin:min") {
+			for _, arg := range c.Call.Args {
+				if u, ok := arg.(*ssa.UnOp); ok && (u.X == ssa.Value(a) || sameLocalAddr(u.X, st.Addr)) {
+					return ""
+				}
+			}
+		}
 		// accumulator: a = append(load a, …)
 		if c, ok := st.Val.(*ssa.Call); ok && calleeName(c) == "builtin:append" {
 			if u, ok := c.Call.Args[0].(*ssa.UnOp); ok && u.X == ssa.Value(a) {
